@@ -33,6 +33,9 @@
     C01_roundtrip_inner (+ _nodes, _writable)   parsing it gives the standalone document; its document
         element is deep_equal to the inner element
   The `LexCanon`-parametric versions (C01_main*) hold for ANY tokenizer meeting the contract.
+  END TO END (last section; the forest lemma families are imported through Props/C04):
+    C01_reachable_roundtrip (+ _fragment, _store)   for EVERY tree an API history can build: value-level
+        conditions + writable names => `to_string` succeeds and `parse` gives back exactly that tree
 -/
 import XotModel.Lemmas.Entity
 import XotModel.Lemmas.SerTokensLexTop
@@ -46,6 +49,8 @@ import XotModel.Lemmas.LexCanon
 import XotModel.Lemmas.InnerStartSerialises
 import XotModel.Model.ParseString
 import XotModel.Props.C02
+import XotModel.Props.C04
+import XotModel.Lemmas.ReachE2E
 
 namespace XotModel.Props
 open XotModel XotModel.Gen
@@ -722,5 +727,114 @@ example : ∃ p, parseString .document c01InnerEnv c01InnerText = .ok p ∧ p.tr
 example : toXmlString c01InnerEnv c01InnerDoc [] =
     .ok "<r xmlns=\"urn:a\" xmlns:p=\"urn:b\" xmlns:q=\"urn:b\">x<m xmlns:p=\"urn:a\" q:w=\"v\"><q:c/></m></r>".toList := by
   decide
+
+/-! ## END TO END: API histories ∘ serialise ∘ parse
+
+Everything above is about a plain `Tree` inside the domain `Representable` (Model/SerTokens.lean), whose
+STRUCTURAL clauses (namespace nodes, then attribute nodes, then the rest; leaves; unique attribute names
+and prefixes per element; no two adjacent text nodes; documents only at the root) are hypotheses there.
+For the trees that the public API can build they are THEOREMS: Props/C04.lean proves the forest invariant
+for every extended history (`C04_reach_ext`: the whole mutating API on nodes, node creation,
+`set_text_consolidation`, `remove_insignificant_whitespace`, `create_missing_prefixes`,
+`deduplicate_namespaces`, `clone_with_prefixes`) and reduces `Representable` of a reachable tree to
+conditions on its VALUES (`C01_reachable_representable`).  This section composes the two halves of the
+development (they could not be imported together before the helper lemma names were made unique):
+
+    history of API calls  —erase→  tree  —to_string→  text  —parse→  the same tree.
+
+`env'` is any pair of interning tables; the intended instance is the tables of the store itself
+(`C01_reachable_roundtrip_store`). -/
+
+section EndToEnd
+
+/-- ⟦C01_reachable_roundtrip⟧ **Every document the API can build round-trips.**  For every extended
+    history `cs` from the empty store, every step well-kinded (`C04_reach_ext`; a condition on map
+    insertions as DATA that the Rust API cannot violate), text consolidation never switched off, and every
+    parentless tree `r` of the resulting forest whose root is a document node: if
+      * the tables are well formed (`envOK`),
+      * every node's own VALUE is in the XML domain (`valueOK`: names are NCNames, text / comment / PI /
+        attribute values are XML characters without the forbidden sequences, text is not empty, …),
+      * the `xml:id` values are pairwise different,
+      * there is exactly one top-level element and no top-level text (`singleRoot`), and
+      * every namespaced name has a usable prefix in scope (`namesWritable`: the serialiser's own
+        `MissingPrefix` checks),
+    then `to_string` of the tree succeeds, and `parse` of the text succeeds and returns EXACTLY that
+    tree — node kinds and order, name ids, attributes, character data, comments, PIs, namespace nodes —,
+    the interning tables unchanged, `deep_equal`.  No structural hypothesis on the tree. -/
+theorem C01_reachable_roundtrip (env : Env) (cs : List Forest.XCall) (hw : ∀ c ∈ cs, c.wellKinded)
+    (hoff : ((⟨Forest.init, env⟩ : Store).xrun cs).forest.everOff = false)
+    (r : HTree) (hr : r ∈ ((⟨Forest.init, env⟩ : Store).xrun cs).forest.roots)
+    (hdoc : r.value.isDocument = true) (env' : Env) (henv : envOK env' = true)
+    (hval : r.erase.allNodes (fun v _ => valueOK env' v) = true)
+    (hid : (xmlIdValues env' r.erase).Nodup) (hone : singleRoot r.erase = true)
+    (hwr : namesWritable env' r.erase [] = some true) :
+    ∃ s p, toXmlString env' r.erase [] = .ok s ∧ parseString .document env' s = .ok p ∧
+      p.tree = r.erase ∧ p.env = env' ∧ deepEqual p.tree r.erase = true := by
+  have hrep : Representable env' r.erase = true := by
+    rw [(C01_reachable_representable env cs hw hoff r hr env').2]
+    simp [henv, hdoc, hval, hid, hone]
+  exact C01_roundtrip_writable env' r.erase hrep hwr
+
+/-- The same for `parse_fragment`: any number of top-level elements, top-level text allowed. -/
+theorem C01_reachable_roundtrip_fragment (env : Env) (cs : List Forest.XCall) (hw : ∀ c ∈ cs, c.wellKinded)
+    (hoff : ((⟨Forest.init, env⟩ : Store).xrun cs).forest.everOff = false)
+    (r : HTree) (hr : r ∈ ((⟨Forest.init, env⟩ : Store).xrun cs).forest.roots)
+    (hdoc : r.value.isDocument = true) (env' : Env) (henv : envOK env' = true)
+    (hval : r.erase.allNodes (fun v _ => valueOK env' v) = true)
+    (hid : (xmlIdValues env' r.erase).Nodup)
+    (hwr : namesWritable env' r.erase [] = some true) :
+    ∃ s p, toXmlString env' r.erase [] = .ok s ∧ parseString .fragment env' s = .ok p ∧
+      p.tree = r.erase ∧ p.env = env' ∧ deepEqual p.tree r.erase = true := by
+  have hrep : RepresentableFragment env' r.erase = true := by
+    rw [(C01_reachable_representable env cs hw hoff r hr env').1]
+    simp [henv, hdoc, hval, hid]
+  obtain ⟨s, hs⟩ := (C01_serialises env' r.erase hrep).mpr hwr
+  obtain ⟨p, h1, h2, h3, h4⟩ := C01_roundtrip_fragment_identical env' r.erase hrep s hs
+  exact ⟨s, p, hs, h1, h2, h3, h4⟩
+
+/-- ⟦C01_reachable_roundtrip_store⟧ The instance the property talks about: the tables are the ones the
+    history itself leaves in the store (`create_missing_prefixes` steps may have added prefixes). -/
+theorem C01_reachable_roundtrip_store (env : Env) (cs : List Forest.XCall) (hw : ∀ c ∈ cs, c.wellKinded)
+    (S : Store) (hS : S = (⟨Forest.init, env⟩ : Store).xrun cs) (hoff : S.forest.everOff = false)
+    (r : HTree) (hr : r ∈ S.forest.roots) (hdoc : r.value.isDocument = true) (henv : envOK S.env = true)
+    (hval : r.erase.allNodes (fun v _ => valueOK S.env v) = true)
+    (hid : (xmlIdValues S.env r.erase).Nodup) (hone : singleRoot r.erase = true)
+    (hwr : namesWritable S.env r.erase [] = some true) :
+    ∃ s p, toXmlString S.env r.erase [] = .ok s ∧ parseString .document S.env s = .ok p ∧
+      p.tree = r.erase ∧ p.env = S.env ∧ deepEqual p.tree r.erase = true := by
+  subst hS
+  exact C01_reachable_roundtrip env cs hw hoff r hr hdoc _ henv hval hid hone hwr
+
+/-! Non-vacuity, closed: the 8-step history `reachDocCalls` of Props/C04.lean (`new_document`, `new_element`,
+    `new_text`, `new_comment`, three `append`s, one `attributes_mut().insert`) from the empty store builds
+    `<!--c--><e a="v">x</e>`; every hypothesis of `C01_reachable_roundtrip` holds by evaluation, the
+    text is the one below, and it parses back to the erased tree. -/
+
+def c01ReachText : Str := "<!--c--><e a=\"v\">x</e>".toList
+
+example : (∀ c ∈ reachDocCalls, c.wellKinded) ∧
+    ((⟨Forest.init, reachDocEnv⟩ : Store).xrun reachDocCalls).forest.everOff = false ∧
+    ((⟨Forest.init, reachDocEnv⟩ : Store).xrun reachDocCalls).forest.roots = [reachDocRoot] ∧
+    reachDocRoot.value.isDocument = true ∧ envOK reachDocEnv = true ∧
+    reachDocRoot.erase.allNodes (fun v _ => valueOK reachDocEnv v) = true ∧
+    (xmlIdValues reachDocEnv reachDocRoot.erase).Nodup ∧ singleRoot reachDocRoot.erase = true ∧
+    namesWritable reachDocEnv reachDocRoot.erase [] = some true ∧
+    toXmlString reachDocEnv reachDocRoot.erase [] = .ok c01ReachText := by decide +kernel
+
+/-- No step of this history touches the interning tables. -/
+example : ((⟨Forest.init, reachDocEnv⟩ : Store).xrun reachDocCalls).env = reachDocEnv := rfl
+
+example : ∃ p, parseString .document reachDocEnv c01ReachText = .ok p ∧ p.tree = reachDocRoot.erase ∧
+    p.env = reachDocEnv ∧ deepEqual p.tree reachDocRoot.erase = true := by
+  obtain ⟨s, p, h1, h2, h3, h4, h5⟩ := C01_reachable_roundtrip reachDocEnv reachDocCalls (by decide)
+    (by decide +kernel) reachDocRoot reachDocRoot_mem rfl reachDocEnv (by decide +kernel) (by decide +kernel)
+    (by decide +kernel) (by decide +kernel) (by decide +kernel)
+  have hs : s = c01ReachText := by
+    have : toXmlString reachDocEnv reachDocRoot.erase [] = .ok c01ReachText := by decide +kernel
+    rw [this] at h1; cases h1; rfl
+  subst hs
+  exact ⟨p, h2, h3, h4, h5⟩
+
+end EndToEnd
 
 end XotModel.Props
